@@ -344,6 +344,13 @@ func (t *wal) AppendAndSync(entry *proto.LogEntry, callback func(err error)) {
 
 func (t *wal) rolloverSegment() error {
 	var err error
+	// Sync only flushes the current segment: entries appended since the last
+	// sync must reach the disk before the segment stops being the current one
+	if t.syncData {
+		if err = t.currentSegment.Flush(); err != nil {
+			return err
+		}
+	}
 	if err = t.currentSegment.Close(); err != nil {
 		return err
 	}
